@@ -8,6 +8,7 @@
 package c08
 
 import (
+	"bytes"
 	_ "embed"
 	"fmt"
 	"runtime"
@@ -30,7 +31,7 @@ func init() {
 		Rule: "Part A: all 280 signatures (<=3 positional required/optional, none|*|*args, <=2 keyword-only required/optional, optional **kwargs) x calls " +
 			"(0-4 positional values, every subset of the 7 names a,b,c,k,m,u,v as named arguments (written forward or reversed, alternating), *seq in {absent, list|tuple|range of length 0-3, int, string}, " +
 			"**dict in 11 shapes incl. duplicates of positional/named arguments, undeclared keys, non-string keys, non-mapping); quick = weighted sample of ~150 calls per signature, " +
-			"thorough = the full product (exhaustive for that sub-space). Each call runs from source and through starlark.Call and is judged by an independent binder and by CPython. " +
+			"thorough = the full product (exhaustive for that sub-space). Each call runs from source, through starlark.Call, and from the module after a Program.Write/CompiledProgram round trip, and is judged by an independent binder and by CPython. " +
 			"Part B: all 121 marker sequences (name, name?, name??) over <=4 parameters x positional count 0..n+1 x named subsets (+unknown, +duplicate) x sampled target types and argument kinds for UnpackArgs, " +
 			"plus sampled UnpackPositionalArgs calls. A case is distinct by (signature, call tuple) resp. (spec, types, call, argument kinds); non-trivial = it passes at least one argument.",
 		Assumptions: []string{
@@ -49,7 +50,7 @@ func finish(ev map[string]any) (string, bool) {
 	if counters == nil {
 		return "", false
 	}
-	need := []string{"A_pairs", "A_ok_bindings", "A_python_compared", "A_direct_calls", "B_unpackargs_calls", "B_wrongtype_target_checks", "B_none_skipped", "B_none_plus_second_argument_must_fail", "op_CALL", "op_CALL_VAR", "op_CALL_KW", "op_CALL_VAR_KW"}
+	need := []string{"A_pairs", "A_ok_bindings", "A_python_compared", "A_direct_calls", "A_compiled_pairs", "A_compiled_ok_bindings", "B_unpackargs_calls", "B_wrongtype_target_checks", "B_none_skipped", "B_none_plus_second_argument_must_fail", "op_CALL", "op_CALL_VAR", "op_CALL_KW", "op_CALL_VAR_KW"}
 	for _, k := range need {
 		if counters[k] == 0 {
 			return "counter " + k + " is zero: the monitor did not observe what it needs", true
@@ -345,6 +346,51 @@ func (e *engine) runChunk(s *sig, calls []call) {
 	}
 	fn := globals["f"]
 
+	// ---- second route: the same module compiled, serialized (Program.Write), reloaded
+	// (starlark.CompiledProgram) and initialised — how hosts that cache compiled modules run it.
+	cresults := make([]attemptResult, 0, len(calls))
+	cattempt := starlark.NewBuiltin("attempt", func(th *starlark.Thread, b *starlark.Builtin, args starlark.Tuple, kwargs []starlark.Tuple) (starlark.Value, error) {
+		if len(args) != 1 || len(kwargs) != 0 {
+			return nil, fmt.Errorf("attempt: want one callable")
+		}
+		v, err := starlark.Call(th, args[0], nil, nil)
+		cresults = append(cresults, attemptResult{ok: err == nil, val: v, err: err})
+		return starlark.None, nil
+	})
+	var cerr error
+	cstage := "compile"
+	if p := sl.Safe(func() {
+		pre := starlark.StringDict{"attempt": cattempt}
+		var prog *starlark.Program
+		if _, prog, cerr = starlark.SourceProgramOptions(&syntax.FileOptions{}, "c08.star", src.String(), pre.Has); cerr != nil {
+			return
+		}
+		cstage = "write"
+		var buf bytes.Buffer
+		if cerr = prog.Write(&buf); cerr != nil {
+			return
+		}
+		e.count("A_compiled_program_bytes", buf.Len())
+		cstage = "load"
+		var prog2 *starlark.Program
+		if prog2, cerr = starlark.CompiledProgram(&buf); cerr != nil {
+			return
+		}
+		cstage = "init"
+		_, cerr = prog2.Init(&starlark.Thread{Name: "c08-compiled"}, pre)
+	}); p != nil {
+		c.Violation("C08 panic executing compiled call module", fmt.Sprintf("panic %v at stage %s for %s", p.Value, cstage, def), map[string]any{"def": def, "panic": p.String(), "stack": p.Stack, "stage": cstage, "first_call": sp.src(calls[0])})
+		return
+	}
+	if cerr != nil || len(cresults) != len(calls) {
+		c.Violation("C08 valid call module rejected after Write/CompiledProgram round trip", fmt.Sprintf("module for %q failed at stage %s: %v (%d of %d call sites ran)", def, cstage, cerr, len(cresults), len(calls)),
+			map[string]any{"def": def, "error": fmt.Sprint(cerr), "stage": cstage, "ran": len(cresults), "source_head": driver.Truncate(src.String(), 2000)})
+		return
+	}
+	e.cover("route", "source")
+	e.cover("route", "starlark.Call")
+	e.cover("route", "compiled")
+
 	// ---- python
 	req := map[string]any{"op": "batch", "def": def, "out": names}
 	tuples := make([][5]int, len(calls))
@@ -436,6 +482,26 @@ func (e *engine) runChunk(s *sig, calls []call) {
 				map[string]any{"def": def, "call": sp.src(cl), "source_result": gotS, "direct_result": directS, "binder": wantS, "binder_error_class": want.errc, "python": presp.Res[i], "callmode": mode})
 		}
 
+		// the reloaded compiled program must bind exactly like the oracle too
+		cr := cresults[i]
+		compS, cerrc := e.outcomeOf(names, cr.val, cr.err)
+		e.count("A_compiled_pairs", 1)
+		if cr.ok {
+			e.count("A_compiled_ok_bindings", 1)
+		} else if cerrc == "other" {
+			c.Inconclusive("unclassified call error %q (compiled route) for %s / %s", cr.err, def, sp.src(cl))
+		}
+		if srcBad == "" { // otherwise the same root cause is already reported under the source route's key
+			if cerrc == "unbound-parameter-in-body" {
+				c.Violation("C08 compiled-program function body entered with unbound parameter",
+					fmt.Sprintf("%s ; %s => %v", def, sp.src(cl), cr.err), map[string]any{"def": def, "call": sp.src(cl), "error": fmt.Sprint(cr.err), "binder": wantS})
+			} else if k := mismatchKind(compS, wantS); k != "" {
+				c.Violation(fmt.Sprintf("C08 compiled-program function %s", k),
+					fmt.Sprintf("%s ; %s => after Program.Write/CompiledProgram %s, from source %s, independent binder %s", def, sp.src(cl), compS, gotS, wantS),
+					map[string]any{"def": def, "call": sp.src(cl), "compiled_result": compS, "source_result": gotS, "binder": wantS, "callmode": mode})
+			}
+		}
+
 		// python, wherever both languages accept the call text with the same meaning
 		pyS := presp.Res[i]
 		if strings.HasPrefix(pyS, "exc:") {
@@ -458,7 +524,7 @@ func (e *engine) runChunk(s *sig, calls []call) {
 		}
 
 		if c.Shard%2 == 0 && c.WantSample() && ((r.ok && i%5 == 3) || i%149 == 111) {
-			c.Sample(map[string]any{"part": "A", "def": def, "call": sp.src(cl), "starlark": gotS, "starlark.Call": directS, "binder": wantS, "python": pyS})
+			c.Sample(map[string]any{"part": "A", "def": def, "call": sp.src(cl), "starlark": gotS, "starlark.Call": directS, "compiled": compS, "binder": wantS, "python": pyS})
 		}
 	}
 	c.Eval(len(calls))
